@@ -447,6 +447,8 @@ def moment_combine(
         else:
             mu = divide(total, n, dtype=dtype)
             inner_term = divide(totals, ns, dtype=dtype) - mu
+    # an empty block contributes nothing (its mean is 0/0), as in moment_agg
+    inner_term = np.where(ns == 0, 0, inner_term)
 
     xs = [_moment_helper(Ms, ns, inner_term, o, sum, axis, kwargs) for o in range(2, order + 1)]
     M = np.stack(xs, axis=-1)
